@@ -7,6 +7,10 @@ mkdir -p evidence .run
 if grep -rnE '\b(Admitted|admit|Axiom|Parameter|Conjecture)\b|Unset Guard Checking|bypass_check|Admit Obligations' coq/theories --include='*.v' | grep -v '^\S*:\s*[0-9]*:\s*(\*' ; then
   echo "setup: forbidden vernacular found" >&2; exit 1
 fi
-coq/build.sh | tail -5
+if ! coq/build.sh > .run/setup_build.log 2>&1; then
+  tail -30 .run/setup_build.log >&2
+  echo "setup: Coq build failed" >&2; exit 1
+fi
+tail -3 .run/setup_build.log
 [ -x native/build.sh ] && native/build.sh || true
 echo "setup done"
